@@ -18,3 +18,4 @@ void frgv_force(A_hm &m, int k) {
 }
 }
 template class frg::hash_map<int, frgv::tracked, frgv::vhash, frgv::valloc>;
+template class frg::optional<frgv::tracked>;
